@@ -629,3 +629,93 @@ Proof.
     { destruct (c_data c); [reflexivity|reflexivity]. }
     rewrite He. destruct (c_kind c <? 3); [rewrite hl_is_refl|]; reflexivity.
 Qed.
+
+(** * further consequences, stated for the property file *)
+Local Open Scope nat_scope.
+
+(** the two sink models agree on every segmentation *)
+Theorem sink_models_agree n ws : 0 < n -> sink_writes n [] ws = sink_bytes_writes n [] ws.
+Proof. intros Hn. rewrite sink_writes_bytes by (cbn [length]; lia). now rewrite sink_bytes_writes_concat. Qed.
+
+(** only the byte stream matters, not how the body writer cut it into writes *)
+Theorem produce_segmentation_irrelevant n ws1 ws2 failed : 0 < n -> concat ws1 = concat ws2 ->
+  produce n ws1 failed = produce n ws2 failed.
+Proof.
+  intros Hn E. unfold produce. rewrite !sink_writes_bytes by (cbn [length]; lia). now rewrite E.
+Qed.
+
+Theorem chunks_of_spec n l : 0 < n -> concat (chunks_of n l) = l /\ chunking n (chunks_of n l).
+Proof. intros Hn. split; [exact (chunks_of_concat n Hn _ l (le_n _))|exact (chunks_of_chunking n Hn _ l (le_n _))]. Qed.
+
+Theorem pull_concat n ws fuel : 0 < n -> lenw ws < fuel ->
+  bodies (fst (raw_pulls fuel (open_handler n ws false))) = concat ws.
+Proof.
+  intros Hn Hf. rewrite raw_exchange_ok by assumption. cbn [fst].
+  rewrite bodies_pulls_ok. exact (chunks_of_concat n Hn _ _ (le_n _)).
+Qed.
+
+Theorem exactly_one_last n ws fuel : 0 < n -> lenw ws < fuel ->
+  exists init b, fst (raw_pulls fuel (open_handler n ws false)) = init ++ [RChunk b true] /\ Forall not_last init.
+Proof.
+  intros Hn Hf. rewrite raw_exchange_ok by assumption. cbn [fst].
+  apply one_last_final_iff. apply one_last_final_pulls_ok.
+Qed.
+
+Theorem empty_payload_single_empty_last n ws fuel : 0 < n -> 0 < fuel -> concat ws = [] ->
+  raw_pulls fuel (open_handler n ws false) = ([RChunk [] true], None).
+Proof.
+  intros Hn Hf E. rewrite raw_exchange_ok; [now rewrite E| exact Hn|]. unfold lenw. rewrite E. exact Hf.
+Qed.
+
+Theorem pull_after_end_errors n ws failed fuel : 0 < n -> lenw ws < fuel ->
+  next_handler (snd (raw_pulls fuel (open_handler n ws failed))) = (RErr EC_INVALID_QUERY, None).
+Proof.
+  intros Hn Hf. destruct failed; [rewrite raw_exchange_fail|rewrite raw_exchange_ok]; try assumption; reflexivity.
+Qed.
+
+Theorem pull_after_cancel_errors t : next_handler (cancel_handler t) = (RErr EC_INVALID_QUERY, None).
+Proof. reflexivity. Qed.
+
+Theorem fail_never_last n ws fuel : 0 < n -> lenw ws < fuel ->
+  exists init, fst (raw_pulls fuel (open_handler n ws true)) = init ++ [RErr EC_INTERNAL] /\
+               Forall not_last init /\ exists r, concat ws = bodies init ++ r.
+Proof.
+  intros Hn Hf. rewrite raw_exchange_fail by assumption. cbn [fst].
+  set (cs := fst (sink_writes n [] ws)).
+  assert (G : forall cs, exists init, pulls_fail cs = init ++ [RErr EC_INTERNAL] /\ Forall not_last init /\
+                                      bodies init = concat (removelast cs)).
+  { clear. induction cs as [|c cs IH]; [exists []; repeat split; constructor|].
+    destruct cs as [|c2 cs]; [exists []; repeat split; constructor|].
+    destruct IH as (init & E & F & B). exists (RChunk c false :: init).
+    change (pulls_fail (c :: c2 :: cs)) with (RChunk c false :: pulls_fail (c2 :: cs)).
+    change (removelast (c :: c2 :: cs)) with (c :: removelast (c2 :: cs)).
+    rewrite E. split; [reflexivity|]. split; [constructor; [now exists c|exact F]|].
+    unfold bodies in *. cbn [map concat resp_body]. now rewrite B. }
+  destruct (G cs) as (init & E & F & B). exists init. split; [exact E|]. split; [exact F|].
+  rewrite B. destruct (concat_removelast_prefix cs) as [r Hr].
+  exists (r ++ snd (sink_writes n [] ws)). rewrite (sink_full_chunks_prefix n ws Hn). fold cs. rewrite Hr.
+  now rewrite app_assoc.
+Qed.
+
+(** without any check of the bytes, [partial_ok] does not look at the stream *)
+Lemma partial_ok_nochk mf rs : forall r1 r2, partial_ok false mf rs r1 = partial_ok false mf rs r2.
+Proof.
+  induction rs as [|r rs IH]; intros r1 r2; [reflexivity|].
+  destruct r as [b [|]|ec]; cbn [partial_ok]; [reflexivity| |reflexivity]. cbn [andb]. apply IH.
+Qed.
+
+(** the compressed path, for any compressor with a left inverse, and whatever
+    writes the encoder performs on the sink *)
+Theorem ok_model_zstd (compress decompress : list byte -> list byte) :
+  (forall d, decompress (compress d) = d) ->
+  forall c ws, c_zstd c = true -> c_fail c = None -> (0 < N.to_nat (c_n c)) ->
+    concat ws = compress (c_data c) ->
+    ok_C09 c (model_C09_with c ws (decompress (concat ws))) = true.
+Proof.
+  intros Inv c ws Hz Hf Hn E. rewrite (model_with_ok c _ _ Hn Hf). cbn zeta. unfold ok_C09. rewrite Hf, Hz.
+  cbn [o_pulls o_after_end o_cancel_pulls o_after_cancel o_plain o_vec o_typed is_err negb andb].
+  rewrite E, Inv, bytes_eqb_refl, one_last_final_pulls_ok, andb_false_r, hl_is_refl.
+  rewrite (partial_ok_nochk false _ (c_data c) (concat (chunks_of (N.to_nat (c_n c)) (compress (c_data c))))).
+  rewrite partial_ok_pulls_ok.
+  destruct (N.ltb (c_kind c) 3); [rewrite hl_is_refl|]; reflexivity.
+Qed.
